@@ -28,7 +28,8 @@ ROUTINES = ["truncate", "orthogonalize", "svd", "svd_matrix", "qtt", "add_many",
 
 @st.composite
 def degenerate_specs(draw, shape=None, n_min=1, n_max=4, d_max=4, pow2=False):
-    fam = draw(st.sampled_from(["zero_core", "const0", "mul0", "cancel", "rank_deficient", "over_ranked", "rank1", "d2", "mode1", "smallint_dup"]))
+    fam = draw(st.sampled_from(["zero_core", "const0", "mul0", "cancel", "rank_deficient", "over_ranked", "rank1", "d2", "mode1", "smallint_dup",
+                                "one_hot", "one_hot", "const_v"]))
     if shape is None:
         if pow2:
             q = draw(st.integers(1, 2))
@@ -58,6 +59,14 @@ def build_degenerate(ds, ctx):
         Y = ctx.lib(teneva.sub, Y, Y)
     elif fam == "smallint_dup" and Y[0].shape[2] >= 2:
         Y[0][:, :, -1] = Y[0][:, :, 0]
+    elif fam == "one_hot":
+        # delta tensor (+ optionally a second one): unfoldings with exactly zero singular values next to non-zero ones
+        rng = np.random.default_rng(spec.get("seed", 0))
+        Y = ctx.lib(teneva.delta, n, [int(rng.integers(0, k)) for k in n], float(rng.integers(1, 4)))
+        if rng.integers(0, 2):
+            Y = ctx.lib(teneva.add, Y, ctx.lib(teneva.delta, n, [int(rng.integers(0, k)) for k in n], -2.0))
+    elif fam == "const_v":
+        Y = ctx.lib(teneva.const, n, 2.5)
     return Y
 
 
